@@ -95,6 +95,19 @@ def shard_events(b):
     return evs
 
 
+def lockstep_counts_delta(b, bk_event):
+    """The bucket event addresses its cell as the element of `shard.buckets.iter()` walked in lock step (zip) with `self.counts`, and adds the counts element of the
+    same step: bucket i receives counts[i] for every i (both sequences are walked whole, no other adapter)."""
+    from pvrules.rules import elem_src
+    idx = bk_event.get("idx")
+    if not (isinstance(idx, tuple) and idx and idx[0] == "pos"):
+        return False
+    ev = elem_src(peel(bk_event["call"].args[1]))
+    if not ev or ev[2] or [a for a in ev[1] if a not in ("zip", "iter", "into_iter", "copied", "cloned")]:
+        return False
+    return peel(ev[0]) == SELF_FIELD("counts") and ev[3] == idx[1]
+
+
 def count_of(sac_call):
     return ("field", sac_call.result_term(), "1")
 
@@ -539,10 +552,17 @@ def rule_C03(ctx, f):
         ok = len(bk) == 1
         if ok:
             zf = lambda t_: is_zero_skip_filter(f, t_)   # noqa: E731  (a filter that drops zero counts only)
-            ei = elem_of(bk[0]["idx"], filter_ok=zf)
-            ev = elem_of(peel(bk[0]["call"].args[1]), filter_ok=zf)
-            ok = bool(ei) and bool(ev) and ei[0] == ev[0] == SELF_FIELD("counts") and ei[2] == ["0"] and ev[2] == ["1"] and not [a for a in ei[1] if a not in ("iter", "into_iter", "enumerate", "filter")]
-            if ok:
+            lock = lockstep_counts_delta(b, bk[0])
+            ei = elem_of(bk[0]["idx"], filter_ok=zf) if not lock else None
+            ev = elem_of(peel(bk[0]["call"].args[1]), filter_ok=zf) if not lock else None
+            ok = lock or (bool(ei) and bool(ev) and ei[0] == ev[0] == SELF_FIELD("counts") and ei[2] == ["0"] and ev[2] == ["1"] and not [a for a in ei[1] if a not in ("iter", "into_iter", "enumerate", "filter")])
+            if lock:
+                # inside the loop the addition may be skipped only for a zero delta
+                hdr = bk[0]["idx"][1][3] if isinstance(bk[0]["idx"][1], tuple) and len(bk[0]["idx"][1]) == 4 else None
+                extra = [g for g in bypass_guards(b, bk[0]["bb"]) if hdr is not None and g != hdr and g not in bypass_guards(b, hdr)
+                         and not (b.switch_info(g) and b.switch_info(g)[0][0] == "discr" and is_call(peel(b.switch_info(g)[0][1], transparent=[]), "Iterator::next"))]
+                ok = hdr is not None and all(skips_only_zero(b, g, bk[0]["bb"], bk[0]["call"].args[1], True) for g in extra)
+            elif ok:
                 # inside the loop the addition may be skipped only for a zero delta
                 nx_ = [c for c in b.calls_to("Iterator::next") if c.result_term() in list(subterms(bk[0]["idx"]))]
                 hdr = nx_[0].bb if len(nx_) == 1 else None
@@ -550,8 +570,8 @@ def rule_C03(ctx, f):
                          and not (b.switch_info(g) and b.switch_info(g)[0][0] == "discr" and peel(b.switch_info(g)[0][1]) == nx_[0].result_term())]
                 ok = hdr is not None and all(skips_only_zero(b, g, bk[0]["bb"], bk[0]["call"].args[1], True) for g in extra)
             # same iteration (same next call)
-            ok = ok and [s for s in subterms(bk[0]["idx"]) if isinstance(s, tuple) and s and s[0] == "call" and is_call(s, "Iterator::next")] == \
-                [s for s in subterms(peel(bk[0]["call"].args[1])) if isinstance(s, tuple) and s and s[0] == "call" and is_call(s, "Iterator::next")]
+            ok = ok and (lock or [s for s in subterms(bk[0]["idx"]) if isinstance(s, tuple) and s and s[0] == "call" and is_call(s, "Iterator::next")] == \
+                [s for s in subterms(peel(bk[0]["call"].args[1])) if isinstance(s, tuple) and s and s[0] == "call" and is_call(s, "Iterator::next")])
         ctx.ob("R2", "flush|bucket-deltas", ok, "for every i the shared bucket i must receive counts[i] (one index for cell and delta, all of counts)", site=bk[0]["call"].span if bk else b.raw["span"]["at"])
         cl = b.calls_to("LocalHistogramCore::clear")
         ok = len(cl) == 1 and peel(cl[0].args[0]) == P(1) and b.all_paths_pass(e1["bb"], [cl[0].bb]) and cl[0].bb in b.strictly_after(el["bb"])
